@@ -215,6 +215,14 @@ func isFullChange(r protocol.Range) bool {
 func (s *Server) DidClose(ctx context.Context, params *protocol.DidCloseTextDocumentParams) error {
 	s.documents.Delete(params.TextDocument.URI)
 	tokenCache.delete(params.TextDocument.URI)
+	s.payeeTemplatesCache.Delete(params.TextDocument.URI)
+
+	// a closed document is what the disk holds: unsaved text must not stay in the workspace
+	if path := uriToPath(params.TextDocument.URI); path != "" && s.workspace != nil {
+		if data, err := os.ReadFile(path); err == nil {
+			s.workspace.UpdateFile(path, string(data))
+		}
+	}
 	return nil
 }
 
